@@ -91,10 +91,10 @@ impl RegexMatcher {
         ignore_case: bool,
     ) -> Result<Self, Box<dyn Error>> {
         let syntax = match regex_type {
-            RegexType::Emacs => Syntax::emacs(),
-            RegexType::Grep => Syntax::grep(),
-            RegexType::PosixBasic => Syntax::posix_basic(),
-            RegexType::PosixExtended => Syntax::posix_extended(),
+            RegexType::Emacs => *Syntax::emacs(),
+            RegexType::Grep => *Syntax::grep(),
+            RegexType::PosixBasic => *Syntax::posix_basic(),
+            RegexType::PosixExtended => *Syntax::posix_extended(),
         };
 
         let options = if ignore_case {
@@ -104,37 +104,117 @@ impl RegexMatcher {
         };
         // Compiled as given first, so that errors are reported for the user's
         // own pattern.
-        Regex::with_options(pattern, options, syntax)?;
+        Regex::with_options(pattern, options, &syntax)?;
 
         // The entire path has to be in the pattern's language. A backtracking
         // matcher returns the first match it finds (for `a\|ab` on "ab" that
-        // is "a"), so the pattern is put in a group and followed by a NUL,
-        // which `matches()` appends to the path as well: that makes the
-        // matcher go on to the alternatives that do reach the end of the
-        // path. (Not `$`: it also matches before a newline in the path.)
+        // is "a"), so the pattern is put in a group and followed by the
+        // end-of-text anchor `\'`: that makes the matcher go on to the
+        // alternatives that do reach the end of the path. (Not `$`: it also
+        // matches before a newline at the end of the path.)
+        let mut whole_syntax = syntax;
+        whole_syntax.enable_operators(SyntaxOperator::SYNTAX_OPERATOR_ESC_GNU_BUF_ANCHOR);
         let (open, close) = if regex_type == RegexType::PosixExtended {
             ("(", ")")
         } else {
             ("\\(", "\\)")
         };
-        let has_back_reference = pattern
-            .as_bytes()
-            .windows(2)
-            .any(|w| w[0] == b'\\' && (b'1'..=b'9').contains(&w[1]));
-        let regex = if !has_back_reference {
-            Regex::with_options(&format!("{open}{pattern}{close}\0"), options, syntax)?
+        let pattern = if regex_type == RegexType::PosixExtended {
+            escape_unmatched_close_parens(pattern)
+        } else {
+            pattern.to_owned()
+        };
+        let regex = if !has_back_reference(&pattern) {
+            Regex::with_options(
+                &format!("{open}{pattern}{close}\\'"),
+                options,
+                &whole_syntax,
+            )?
         } else if !pattern.contains(&format!("{open}?")) {
             // An extra capturing group would renumber the back-references:
             // use a group that does not capture (its "(?:" spelling is only
             // switched on here, where the pattern has no "(?" of its own).
-            let mut shy_syntax = *syntax;
-            shy_syntax.enable_operators(SyntaxOperator::SYNTAX_OPERATOR_QMARK_GROUP_EFFECT);
-            Regex::with_options(&format!("{open}?:{pattern}{close}\0"), options, &shy_syntax)?
+            whole_syntax.enable_operators(SyntaxOperator::SYNTAX_OPERATOR_QMARK_GROUP_EFFECT);
+            Regex::with_options(
+                &format!("{open}?:{pattern}{close}\\'"),
+                options,
+                &whole_syntax,
+            )?
         } else {
-            Regex::with_options(&format!("{pattern}\0"), options, syntax)?
+            Regex::with_options(&format!("{pattern}\\'"), options, &whole_syntax)?
         };
         Ok(Self { regex })
     }
+}
+
+/// Does the pattern refer back to a group (`\1` to `\9`)?
+fn has_back_reference(pattern: &str) -> bool {
+    let mut bytes = pattern.bytes();
+    while let Some(b) = bytes.next() {
+        if b == b'\\' && matches!(bytes.next(), Some(b'1'..=b'9')) {
+            return true;
+        }
+    }
+    false
+}
+
+/// In the posix-extended syntax a ")" without a "(" before it is an ordinary
+/// character. It is given a backslash, so that it cannot pair with a
+/// parenthesis put in front of the pattern.
+fn escape_unmatched_close_parens(pattern: &str) -> String {
+    let mut escaped = String::with_capacity(pattern.len());
+    let mut depth = 0_usize;
+    let mut chars = pattern.chars().peekable();
+    while let Some(c) = chars.next() {
+        match c {
+            '\\' => {
+                escaped.push(c);
+                if let Some(next) = chars.next() {
+                    escaped.push(next);
+                }
+                continue;
+            }
+            '[' => {
+                // A bracket expression is copied as it is: "^" and a "]"
+                // right after the opening, then up to the closing "]", with
+                // "[:alpha:]", "[.a.]" and "[=a=]" as units.
+                escaped.push(c);
+                if chars.peek() == Some(&'^') {
+                    escaped.push('^');
+                    chars.next();
+                }
+                if chars.peek() == Some(&']') {
+                    escaped.push(']');
+                    chars.next();
+                }
+                while let Some(c) = chars.next() {
+                    escaped.push(c);
+                    if c == ']' {
+                        break;
+                    }
+                    if c == '[' && matches!(chars.peek(), Some(':' | '.' | '=')) {
+                        let kind = chars.next().unwrap();
+                        escaped.push(kind);
+                        let mut previous = '[';
+                        for c in chars.by_ref() {
+                            escaped.push(c);
+                            if c == ']' && previous == kind {
+                                break;
+                            }
+                            previous = c;
+                        }
+                    }
+                }
+                continue;
+            }
+            '(' => depth += 1,
+            ')' if depth == 0 => escaped.push('\\'),
+            ')' => depth -= 1,
+            _ => {}
+        }
+        escaped.push(c);
+    }
+    escaped
 }
 
 #[cfg(feature = "verif-hooks")]
@@ -157,13 +237,12 @@ impl RegexMatcher {
 
 impl Matcher for RegexMatcher {
     fn matches(&self, file_info: &WalkEntry, _: &mut MatcherIO) -> bool {
-        // The pattern was compiled with a NUL after it (see `new()`).
-        let path = format!("{}\0", file_info.path().to_string_lossy());
+        let path = file_info.path().to_string_lossy();
         // Not `Regex::is_match`: it panics when the matcher gives up (e.g. on
         // its backtracking limit). Such a path is reported as not matching.
         matches!(
             self.regex.match_with_param(
-                path.as_str(),
+                &path,
                 0,
                 SearchOptions::SEARCH_OPTION_NONE,
                 None,
